@@ -151,7 +151,10 @@ namespace l2cap {
     {
         const std::uint8_t code = in_size > 0 ? input[ 0 ] : 0;
 
-        if ( code == connection_parameter_update_response_code && pending_status_ == transmitted )
+        // only the response to the request, that was sent, ends the procedure
+        const bool matching_identifier = in_size >= 2 && input[ 1 ] == identifier_;
+
+        if ( code == connection_parameter_update_response_code && pending_status_ == transmitted && matching_identifier )
         {
             pending_status_ = idle;
             identifier_ = static_cast< std::uint8_t >( identifier_ + 1 );
